@@ -350,6 +350,15 @@ example : prefixCommands { prefixes := ["act".toList, "src x".toList], cwds := [
     = "cd /a/b\\ c && act && src x && ls".toList := by decide
 example : cwdOf ["/a".toList, "b".toList, "~/c".toList, "d".toList] = "~/c/d".toList := by decide
 example : cwdOf ["x".toList, "y".toList] = "x/y".toList := by decide
+/-- two SIBLING stacks on one context that share the relative leaf `logs` under different parents: `exec` threads the
+    stack functionally, so each run sees the stack of the moment of the call (same depth and same innermost entry do
+    NOT mean the same directory) -/
+example : (exec { prompt := [], user := none, password := none } { prefixes := [], cwds := [] }
+    (.cd "/srv/alpha".toList (.cd "logs".toList (.run "ls".toList .done) .done)
+      (.cd "/srv/beta".toList (.cd "logs".toList (.run "ls".toList .done) .done)
+        (.cd "/srv/alpha".toList (.cd "logs".toList (.sudo "ls".toList none [] .done) .done) .done)))).log
+    = [.ran "cd /srv/alpha/logs && ls".toList, .ran "cd /srv/beta/logs && ls".toList,
+       .ran "sudo -S -p '' cd /srv/alpha/logs && ls".toList] := by decide
 example : cwdOf ["/srv".toList, "data/~tmp".toList, "logs".toList] = "/srv/data/~tmp/logs".toList := by decide
 example : cwdOf ["/~archive".toList] = "/~archive".toList := by decide
 example : cwdOf ["a~".toList, "x/".toList, "~".toList, "b/~".toList, "".toList] = "~/b/~/".toList := by decide
